@@ -808,7 +808,7 @@ class Message:
             )
         )
 
-        if set_uri_host and not is_ip_literal:
+        if not is_ip_literal:
             # Not parsed.hostname: that went through str.lower(), which also
             # changes characters outside of ASCII (U+212A KELVIN SIGN becomes
             # "k", a different host than under its escaped spelling
@@ -817,13 +817,16 @@ class Message:
             # netloc.)
             host = parsed.netloc.partition(":")[0]
             try:
-                self.opt.uri_host = urllib.parse.unquote(
-                    host, errors="strict"
-                ).translate(_ascii_lowercase)
+                uri_host = urllib.parse.unquote(host, errors="strict").translate(
+                    _ascii_lowercase
+                )
             except UnicodeError as e:
+                # (whether or not the name is to go into an option)
                 raise error.MalformedUrlError(
                     "Percent encoded strings in CoAP URI hosts need to be UTF-8 encoded"
                 ) from e
+            if set_uri_host:
+                self.opt.uri_host = uri_host
 
     # Deprecated accessors to moved functionality
 
